@@ -102,6 +102,19 @@ impl Chunk {
   }
 }
 
+#[cfg(feature = "verif")]
+impl Chunk {
+  /// The constants of this chunk
+  pub fn verif_constants(&self) -> &[Value] {
+    &self.constants
+  }
+
+  /// The line table of this chunk
+  pub fn verif_lines(&self) -> &[u16] {
+    &self.lines
+  }
+}
+
 impl Trace for Chunk {
   #[inline]
   fn trace(&self) {
